@@ -231,3 +231,21 @@ fn c10_k3_fileinfo_new() {
 fn c10_k3_fileinfo_new_b3() {
     fileinfo_new_check::<3>();
 }
+
+//@ id: c10_k3_fileinfo_new_b01
+//@ property: C10
+//@ tier: quick
+//@ encodes: FileInfo::new, FileInfo::trans_span2 on its result (empty file and one-byte file)
+//@ sym: text of 0 or 1 ASCII bytes; offset <= len
+//@ oracle: as c10_k3_fileinfo_new (in particular: the empty file has exactly one line starting at 0 and offset 0 is line 0, column 0)
+//@ bounds: <= 1 byte; unwind 7
+//@ replay: playback
+#[kani::proof]
+#[kani::unwind(7)]
+fn c10_k3_fileinfo_new_b01() {
+    if kani::any() {
+        fileinfo_new_check::<0>();
+    } else {
+        fileinfo_new_check::<1>();
+    }
+}
